@@ -29,6 +29,10 @@ type WireRig struct {
 }
 
 // NewWireRig prepares and starts a daemon with `accounts` accounts in Wallet1 (client1 may do everything).
+// WireRigRace makes the next rigs use the daemon built with the race detector (set by checks whose wire slice is
+// concurrent; their check IDs must be in ./check's needs_race_daemon list).
+var WireRigRace bool
+
 func NewWireRig(cfg Cfg, name string, accounts int, adminIPs []string) (*WireRig, error) {
 	ca, err := rig.NewCA("verif-ca")
 	if err != nil {
@@ -42,7 +46,7 @@ func NewWireRig(cfg Cfg, name string, accounts int, adminIPs []string) (*WireRig
 	d, err := rig.PrepareDaemon(rig.DaemonOpts{Dir: cfg.Dir(name), ID: 1, IP: "127.0.0.1", Port: port, CA: ca, AdminIPs: adminIPs,
 		Peers:       map[uint64]string{1: fmt.Sprintf("127.0.0.1:%d", port)},
 		Permissions: map[string]map[string][]string{"client1": {"Wallet1": {"All"}}},
-		NDWallets:   map[string][]string{"Wallet1": names}})
+		NDWallets:   map[string][]string{"Wallet1": names}, Race: WireRigRace})
 	if err != nil {
 		return nil, err
 	}
